@@ -77,7 +77,8 @@ def run_schedules(spec, h, budget, scripts, stats=None, extra=None, nontrivial_f
     ex = Executor(schema, spec["doc"], RefProvider(rtree))
     op = ex.get_operation(spec["op"])
     root = schema["roots"][op["type"]]
-    expected = ex.execute(spec["op"], spec["variables"], root_value=rtree.root(root))
+    variables = c02.effective_variables(spec)
+    expected = ex.execute(spec["op"], variables, root_value=rtree.root(root))
     ref_errors = ex.final_errors()
     ref_paths = {}
     for e in ref_errors:
@@ -91,7 +92,7 @@ def run_schedules(spec, h, budget, scripts, stats=None, extra=None, nontrivial_f
         c02.install(etree, faults)
         h.set_tree(etree)
         h.gate = s.gate
-        return h.engine.execute(printed.text, operation_name=spec["op"], context=h.ctx_token, variables=copy.deepcopy(spec["variables"]), initial_value=h.root_value(root))
+        return h.engine.execute(printed.text, operation_name=spec["op"], context=h.ctx_token, variables=copy.deepcopy(variables), initial_value=h.root_value(root))
 
     def on_result(s, resp, left, script):
         ctx = "\nconfig=%r\nschedule=%r released=%r\nquery:\n%s\nvariables=%r faults=%r\nresponse=%s\nreference=%s" % (
@@ -163,7 +164,7 @@ def case(c, stats):
         if c.maybe(40):
             sites = c02.fault_sites(schema, ex)
             if sites:
-                lab, key, f, _ = sites[c.int(0, len(sites) - 1)]
+                lab, key, f, _ = c02.pick_fault(c, sites)
                 spec["faults"] = [[list(key), c02.fault_to_json(f)]]
         reqs.append(spec)
     for cfg in configs:
